@@ -677,13 +677,10 @@ Lemma CoreS_init (E : Prop) w :
   wacc w = ∅ → (E → sacl (gs (wg w)) = ∅) →
   CoreS E (gs (wg w)) (wacc w) (wnat w) (gs (ref_init w)).
 Proof.
-  intros Hacc HE. repeat split; try (intros a; rewrite Hacc, lookup_empty).
-  - by intros [? ?].
-  - by intros [? ?].
-  - intros _. unfold gb; simpl. by rewrite nb_fmap.
-  - intros _. unfold gn; simpl. by rewrite nn_fmap.
-  - by intros [? ?].
-  - done.
+  intros Hacc HE. split; [|split; [|split]].
+  - intros a. rewrite Hacc, lookup_empty. by intros [? ?].
+  - intros a _. unfold gb, gn; simpl. by rewrite nb_fmap, nn_fmap.
+  - intros a. rewrite Hacc, lookup_empty. split; [by intros [? ?]|done].
   - done.
 Qed.
 
@@ -697,7 +694,6 @@ Proof.
   - by rewrite Hrevs.
   - intros a t. by rewrite Hacc, lookup_empty.
   - by apply CoreS_init.
-  - intros ?????. by rewrite Hrevs.
 Qed.
 
 (* ExecuteTrx: any wrapper between two transactions (s.snapshot arbitrary, e.g. the fresh
@@ -727,10 +723,10 @@ Theorem wrapper_refines_reference_tx w f t body :
   (wrun ops w).1 = (rrun ops (ref_init w)).1 ∧
   Inv False (wrun ops w).2 (rrun ops (ref_init w)).2.
 Proof.
-  intros Hacc Hrevs ops [_ Hd]. unfold ops. rewrite wrun_cons, rrun_cons; simpl.
+  intros Hacc Hrevs ops [_ Hd]. unfold ops. rewrite wrun_cons, rrun_cons. cbn [fst snd].
   pose proof (Inv_after_snapshot False w Hacc Hrevs (λ H : False, match H with end)) as HI.
-  destruct (wrapper_refines_reference _ _ _ _ HI Hd) as [Houts HI']. split; [|done].
-  by rewrite Houts.
+  destruct (wrapper_refines_reference _ _ _ _ HI Hd) as [Houts HI']. split; [|exact HI'].
+  rewrite Houts. reflexivity.
 Qed.
 
 (* if moreover the geth access list starts empty, the wrapper's geth access list equals the
@@ -743,7 +739,7 @@ Theorem acl_agree w f t body :
   sacl (gs (wg (wrun ops w).2)) = sacl (gs (rrun ops (ref_init w)).2) ∧
   ∀ a, is_Some (wacc (wrun ops w).2 !! a) ↔ in_acl (gs (wg (wrun ops w).2)) a = true.
 Proof.
-  intros Hacc Hrevs Hacl ops [_ Hd]. unfold ops. rewrite wrun_cons, rrun_cons; simpl.
+  intros Hacc Hrevs Hacl ops [_ Hd]. unfold ops. rewrite wrun_cons, rrun_cons. cbn [fst snd].
   pose proof (Inv_after_snapshot True w Hacc Hrevs (λ _, Hacl)) as HI.
   destruct (wrapper_refines_reference _ _ _ _ HI Hd) as [_ HI'].
   destruct (i_core _ _ _ HI') as (_ & _ & Hc3 & Hc4). specialize (Hc4 I).
@@ -778,10 +774,29 @@ Theorem tx_success w f t body :
 Proof.
   intros Hacc Hrevs ops Hd w' g'.
   destruct (wrapper_refines_reference_tx w f t body Hacc Hrevs Hd) as [Houts HI].
-  split; [done|]. unfold w'. rewrite wrun_app; simpl.
-  destruct (wstep OFinish (wrun ops w).2) as [out wf] eqn:Hfin; simpl.
-  pose proof (finish_matches_reference _ _ _ HI) as Hm. rewrite Hfin in Hm; simpl in Hm.
-  split; [|done]. pose proof (finish_syncs_out (wrun ops w).2) as (He & _). by rewrite Hfin in He.
+  split; [done|]. unfold w'. rewrite wrun_app. cbn [fst snd]. rewrite wrun_cons. cbn [fst snd wrun].
+  split.
+  - pose proof (finish_syncs_out (wrun ops w).2) as (He & _). exact He.
+  - exact (finish_matches_reference _ _ _ HI).
+Qed.
+
+(* Two transactions of one block with native activity in between: after the first transaction
+   (Finish, then geth's Finalise) native transactions change the native ledger to ANY [m'];
+   the next contract transaction sees exactly [m'] (and by [tx_success] leaves behind exactly
+   the reference world's result).  Nothing is assumed about what the first transaction left in
+   geth's balances, nonces and access list. *)
+Theorem native_changes_visible w m' f t body :
+  wacc w = ∅ →
+  let w' := w_set_native m' (w_finalise w) in
+  let ops := OSnapshot :: OPrepare (gnext (wg w)) f t :: body in
+  disciplined ops (ref_init w') →
+  gs (ref_init w') = JS (fst <$> m') (snd <$> m') ∅ [] ∧
+  (wrun ops w').1 = (rrun ops (ref_init w')).1 ∧
+  ∀ a, nb (wnat (wrun (ops ++ [OFinish]) w').2) a = gb (gs (rrun ops (ref_init w')).2) a ∧
+       nn (wnat (wrun (ops ++ [OFinish]) w').2) a = gn (gs (rrun ops (ref_init w')).2) a.
+Proof.
+  intros Hacc w' ops Hd. split; [done|].
+  destruct (tx_success w' f t body Hacc eq_refl Hd) as (Houts & _ & Hfin). by split.
 Qed.
 
 (** * the refutation: Prepare without a fresh Snapshot (the state of the code before issue #69,
@@ -828,4 +843,150 @@ Proof.
   exists w_refute, ops_refute_finish. repeat split; try (vm_compute; reflexivity).
   - vm_compute. eauto.
   - vm_compute. intros H. discriminate H.
+Qed.
+
+(** * W4: examples, evaluated on both machines
+
+   Each example is a call sequence as geth v1.10.23 issues it (core/state_transition.go,
+   core/vm/evm.go, instructions.go, operations_acl.go) on a NEW wrapper (nextRevisionId = 0), with
+   stale geth copies that differ from the native ledger everywhere.  [agree] compares all outputs
+   and, after Finish, the native ledger with the reference world's balances and nonces on every
+   address of the example. *)
+
+Local Open Scope Z_scope.
+
+Definition ex_native : list acct :=
+  [(1%N, 1000, 5); (2%N, 50, 1); (3%N, 7, 1); (9%N, 3, 0)].
+Definition ex_stale : list acct :=
+  [(1%N, 1, 1); (2%N, 2, 2); (3%N, 99, 9); (4%N, 44, 4); (9%N, 0, 7)].
+Definition ex_w0 : wstate :=
+  fresh_wrapper (bal_of ex_stale) (nonce_of ex_stale) (native_of ex_native).
+
+(* sender 1 calls contract 2 with value 10 (gas 100 bought, 40 refunded).  2 calls 3 (frame with
+   revision 2) which reads the balance of 4 (first access: BALANCE) and reverts; 2 then touches
+   4 again (BALANCE: access list entry was rolled back, so it is added and synced in again),
+   sends 5 to 3 and returns. *)
+Definition ex_nested_body : list wop :=
+  [ OSnapshot; OPrepare 0 1%N (Some 2%N);
+    OGetNonce 1%N; OGetBalance 1%N; OSubBalance 1%N 100;            (* preCheck, buyGas *)
+    OGetBalance 1%N;                                                (* CanTransfer *)
+    OAddAccess 1%N; OAddAccess 2%N; OAddAccess 9%N;                 (* PrepareAccessList *)
+    OGetNonce 1%N; OSetNonce 1%N 6;
+    OGetBalance 1%N; OSnapshot; OSubBalance 1%N 10; OAddBalance 2%N 10;   (* evm.Call 1 -> 2 *)
+    OAddAccess 3%N;                                                 (* CALL gas function *)
+    OGetBalance 2%N; OSnapshot; OSubBalance 2%N 4; OAddBalance 3%N 4;     (* evm.Call 2 -> 3 *)
+    OAddAccess 4%N; OGetBalance 4%N; OGetBalance 3%N;
+    ORevert 2;                                                      (* 3 reverts *)
+    OGetBalance 3%N; OGetBalance 2%N;
+    OAddAccess 4%N; OGetBalance 4%N;                                (* 4 touched again *)
+    OGetBalance 2%N; OSnapshot; OSubBalance 2%N 5; OAddBalance 3%N 5;     (* evm.Call 2 -> 3 *)
+    OGetBalance 3%N;
+    OAddBalance 1%N 40 ].                                           (* refundGas *)
+
+Example ex_nested_disciplined : disciplinedb ex_nested_body (ref_init ex_w0) = true.
+Proof. vm_compute. reflexivity. Qed.
+Example ex_nested_agree : agree ex_native ex_stale (ex_nested_body ++ [OFinish]) = true.
+Proof. vm_compute. reflexivity. Qed.
+Example ex_nested_result :
+  wrun_outs ex_native ex_stale (ex_nested_body ++ [OFinish]) =
+  ([OutId 0; OutUnit; OutVal 5; OutVal 1000; OutUnit; OutVal 900; OutUnit; OutUnit; OutUnit;
+    OutVal 5; OutUnit; OutVal 900; OutId 1; OutUnit; OutUnit; OutUnit; OutVal 60; OutId 2;
+    OutUnit; OutUnit; OutUnit; OutVal 0; OutVal 11; OutUnit; OutVal 7; OutVal 60; OutUnit;
+    OutVal 0; OutVal 60; OutId 3; OutUnit; OutUnit; OutVal 12; OutUnit; OutUnit],
+   [(1%N, 930, 6); (2%N, 55, 1); (3%N, 12, 1); (4%N, 0, 0); (9%N, 3, 0)]).
+Proof. vm_compute. reflexivity. Qed.
+
+(* the same transaction failing at the top: evm.Call 1 -> 2 reverts (revision 1), gas is
+   refunded, ExecuteTrx reverts to its own snapshot and calls Finish: nothing is written *)
+Definition ex_fail_body : list wop :=
+  [ OSnapshot; OPrepare 0 1%N (Some 2%N);
+    OGetNonce 1%N; OGetBalance 1%N; OSubBalance 1%N 100; OGetBalance 1%N;
+    OAddAccess 1%N; OAddAccess 2%N; OAddAccess 9%N;
+    OGetNonce 1%N; OSetNonce 1%N 6;
+    OGetBalance 1%N; OSnapshot; OSubBalance 1%N 10; OAddBalance 2%N 10;
+    OAddAccess 3%N; OGetBalance 3%N;
+    ORevert 1;
+    OAddBalance 1%N 40;
+    ORevert 0 ].
+
+Example ex_fail_disciplined : disciplinedb ex_fail_body (ref_init ex_w0) = true.
+Proof. vm_compute. reflexivity. Qed.
+Example ex_fail_agree : agree ex_native ex_stale (ex_fail_body ++ [OFinish]) = true.
+Proof. vm_compute. reflexivity. Qed.
+Example ex_fail_native_unchanged :
+  (wrun_outs ex_native ex_stale (ex_fail_body ++ [OFinish])).2 =
+  [(1%N, 1000, 5); (2%N, 50, 1); (3%N, 7, 1); (4%N, 0, 0); (9%N, 3, 0)].
+Proof. vm_compute. reflexivity. Qed.
+
+(* deployment: sender 1 creates contract 4 with endowment 20 (evm.create); the constructor
+   reads its own balance *)
+Definition ex_create_body : list wop :=
+  [ OSnapshot; OPrepare 0 1%N None;
+    OGetNonce 1%N; OGetBalance 1%N; OSubBalance 1%N 100; OGetBalance 1%N;
+    OAddAccess 1%N; OAddAccess 9%N;
+    OGetNonce 1%N;                                     (* evm.Create: address from the nonce *)
+    OGetBalance 1%N; OGetNonce 1%N; OSetNonce 1%N 6;   (* evm.create *)
+    OAddAccess 4%N; OGetNonce 4%N;
+    OSnapshot; OCreate 4%N; OSetNonce 4%N 1;
+    OSubBalance 1%N 20; OAddBalance 4%N 20;
+    OGetBalance 4%N; OGetNonce 4%N;
+    OAddBalance 1%N 30 ].
+
+Example ex_create_disciplined : disciplinedb ex_create_body (ref_init ex_w0) = true.
+Proof. vm_compute. reflexivity. Qed.
+Example ex_create_agree : agree ex_native ex_stale (ex_create_body ++ [OFinish]) = true.
+Proof. vm_compute. reflexivity. Qed.
+Example ex_create_final :
+  (wrun_outs ex_native ex_stale (ex_create_body ++ [OFinish])).2 =
+  [(1%N, 910, 6); (2%N, 50, 1); (3%N, 7, 1); (4%N, 20, 1); (9%N, 3, 0)].
+Proof. vm_compute. reflexivity. Qed.
+
+(* sender 1 calls contract 2, which self-destructs in favour of 3 (opSelfdestruct); in a second
+   variant the frame then fails and the self-destruct is rolled back *)
+Definition ex_suicide_prefix : list wop :=
+  [ OSnapshot; OPrepare 0 1%N (Some 2%N);
+    OGetNonce 1%N; OGetBalance 1%N; OSubBalance 1%N 100; OGetBalance 1%N;
+    OAddAccess 1%N; OAddAccess 2%N; OAddAccess 9%N;
+    OGetNonce 1%N; OSetNonce 1%N 6;
+    OSnapshot;
+    OAddAccess 3%N;                                     (* makeSelfdestructGasFn *)
+    OGetBalance 3%N; OGetNonce 3%N; OGetBalance 2%N;    (* Empty(3), GetBalance(2) *)
+    OGetBalance 2%N; OAddBalance 3%N 50; OSuicide 2%N;  (* opSelfdestruct *)
+    OGetBalance 2%N; OGetBalance 3%N ].
+Definition ex_suicide_body : list wop := ex_suicide_prefix ++ [OAddBalance 1%N 70].
+Definition ex_suicide_reverted_body : list wop :=
+  ex_suicide_prefix ++ [ORevert 1; OGetBalance 2%N; OAddBalance 1%N 0; ORevert 0].
+
+Example ex_suicide_disciplined : disciplinedb ex_suicide_body (ref_init ex_w0) = true.
+Proof. vm_compute. reflexivity. Qed.
+Example ex_suicide_agree : agree ex_native ex_stale (ex_suicide_body ++ [OFinish]) = true.
+Proof. vm_compute. reflexivity. Qed.
+Example ex_suicide_final :
+  (wrun_outs ex_native ex_stale (ex_suicide_body ++ [OFinish])).2 =
+  [(1%N, 970, 6); (2%N, 0, 1); (3%N, 57, 1); (4%N, 0, 0); (9%N, 3, 0)].
+Proof. vm_compute. reflexivity. Qed.
+Example ex_suicide_reverted_disciplined :
+  disciplinedb ex_suicide_reverted_body (ref_init ex_w0) = true.
+Proof. vm_compute. reflexivity. Qed.
+Example ex_suicide_reverted_agree :
+  agree ex_native ex_stale (ex_suicide_reverted_body ++ [OFinish]) = true.
+Proof. vm_compute. reflexivity. Qed.
+
+(* the harness entry point on a recorded case *)
+Example ex_check_wcases :
+  check_wcases
+    [ WCase ex_native ex_stale (ex_create_body ++ [OFinish])
+        (wrun_outs ex_native ex_stale (ex_create_body ++ [OFinish])).1
+        [(1%N, 910, 6); (2%N, 50, 1); (3%N, 7, 1); (4%N, 20, 1); (9%N, 3, 0)] ] = true.
+Proof. vm_compute. reflexivity. Qed.
+
+(* the examples are instances of the theorems: e.g. the discipline of [ex_nested_body] gives,
+   by [tx_success], the agreement that [ex_nested_agree] computed *)
+Lemma disciplinedb_sound ops g : disciplinedb ops g = true → disciplined ops g.
+Proof.
+  revert g. induction ops as [|o r IH]; intros g; cbn [disciplinedb disciplined]; [done|].
+  intros [Hok Hr]%andb_prop. split; [|by apply IH].
+  destruct o; cbn [op_okb op_ok] in *; try done.
+  - by destruct (find_rev id (grevs g)).
+  - by apply Nat.eqb_eq in Hok.
 Qed.
